@@ -53,21 +53,22 @@ type Prog struct {
 	Funcs []*ssa.Function        // in-scope source functions (incl. closures), sorted
 	cg    *callgraph.Graph
 	// caches
-	e1    *e1Result
-	e3    *e3Result
-	e3b   *[]E3bIssue
-	wrapped     map[*ssa.Function]bool // function literals run at once by a lock-wrapper helper
-	propReports map[string]*Report
-	importing   bool
-	onceBody map[*ssa.Function]*ssa.Function
-	byName   map[string]*ssa.Function
-	single   map[*ssa.Function]bool
-	leaf     map[*ssa.Function]bool
+	e1            *e1Result
+	e3            *e3Result
+	e3b           *[]E3bIssue
+	wrapped       map[*ssa.Function]bool // function literals run at once by a lock-wrapper helper
+	propReports   map[string]*Report
+	e11c          *e11
+	importing     bool
+	onceBody      map[*ssa.Function]*ssa.Function
+	byName        map[string]*ssa.Function
+	single        map[*ssa.Function]bool
+	leaf          map[*ssa.Function]bool
 	e3bSerialised int
-	e4    *e4Result
-	e5    *e5Result
-	atoms map[*ssa.Function]*guardInfo
-	doms  map[*ssa.Function]*postDom
+	e4            *e4Result
+	e5            *e5Result
+	atoms         map[*ssa.Function]*guardInfo
+	doms          map[*ssa.Function]*postDom
 }
 
 // subject packages: everything in the module except examples, perf, test helpers.
